@@ -1,7 +1,7 @@
 (* C12 (part a) - remaining containers are equivalent to their abstract models. Statements only.
    ShrinkingMap, RandomMap, PriorityQueue (+ generalheap, timed.PriorityQueue), Queue, RingBuffer, Stack. *)
-From Coq Require Import List ZArith Bool Arith Permutation.
-From Verif.C12a_Containers Require Import ListAux SMap SMapProofs RMap RMapProofs Heap HeapIndex HeapProofs Ring RingProofs.
+From Coq Require Import List ZArith Bool Arith Permutation Sorted.
+From Verif.C12a_Containers Require Import ListAux SMap SMapProofs RMap RMapProofs Heap HeapIndex HeapProofs HeapOrder Ring RingProofs Corr.
 Import ListNotations.
 
 Section C12a.
@@ -62,16 +62,63 @@ Theorem C12_pq_push_contents : forall (s : hst P V) p v, idx_ok P V s ->
   val vzero (fst (hstep cmp pzero vzero s (HPush p v))) (length (prios s)) = v.
 Proof. exact (push_contents P V cmp pzero vzero). Qed.
 
-(* PARTIAL (ordering not proved, see pop_min_full_statement): Pop returns the root, which is what Peek shows,
-   and removes exactly that element. *)
-Theorem C12_pq_pop_min_partial : forall (s : hst P V), idx_ok P V s -> arr s <> [] ->
+(* Any comparator (no ordering premise): Pop returns the root, which is what Peek shows, and removes exactly that element. *)
+Theorem C12_pq_pop_root : forall (s : hst P V), idx_ok P V s -> arr s <> [] ->
   snd (hstep cmp pzero vzero s HPop) = HOVal (Some (val vzero s (at_ s 0))) /\
   snd (hstep cmp pzero vzero s HPeek) = HOVal (Some (val vzero s (at_ s 0))) /\
   Permutation (arr s) (at_ s 0 :: arr (fst (hstep cmp pzero vzero s HPop))) /\
   ix P V (fst (hstep cmp pzero vzero s HPop)) (at_ s 0) = (-1)%Z.
 Proof. exact (pop_contents P V cmp pzero vzero). Qed.
-(* full statement that remains open: in every reachable state the root is a minimum for a strict weak order *)
+
+(* ---- heap ORDER, for a comparator that is a strict weak order (CompareTo < 0 asymmetric and negatively transitive) ---- *)
+(* every reachable state (all histories of Push / removal handles / Peek / Pop / PopUntil / PopAll / Size / IsEmpty):
+   exact index fields AND key(parent) <= key(child) on the whole slice *)
+Theorem C12_pq_heap_invariant : strict_weak_order P cmp -> forall h : list (hev P V),
+  hinv P V cmp pzero (fst (hrun cmp pzero vzero hnew h)).
+Proof. exact (heap_reachable_hinv P V cmp pzero vzero). Qed.
+
+(* the invariant is inductive: every single operation preserves it from ANY state satisfying it *)
+Theorem C12_pq_heap_invariant_step : strict_weak_order P cmp -> forall (s : hst P V) e,
+  hinv P V cmp pzero s -> hinv P V cmp pzero (fst (hstep cmp pzero vzero s e)).
+Proof. exact (hstep_hinv P V cmp pzero vzero). Qed.
+
+(* the statement that was open in the first delivery: in every reachable state no element is smaller than the root *)
 Definition C12_pq_pop_min_full_statement : Prop := pop_min_full_statement P V cmp pzero vzero.
+Theorem C12_pq_pop_min_full : C12_pq_pop_min_full_statement.
+Proof. exact (pop_min_full P V cmp pzero vzero). Qed.
+
+(* Pop and Peek return a minimum of the current contents; Pop removes exactly that element and keeps the invariant *)
+Theorem C12_pq_pop_min : strict_weak_order P cmp -> forall (s : hst P V), hinv P V cmp pzero s -> arr s <> [] ->
+  let m := at_ s 0 in
+  snd (hstep cmp pzero vzero s HPop) = HOVal (Some (val vzero s m)) /\
+  snd (hstep cmp pzero vzero s HPeek) = HOVal (Some (val vzero s m)) /\
+  In m (arr s) /\
+  (forall x, In x (arr s) -> plt P cmp (prio pzero s x) (prio pzero s m) = false) /\
+  Permutation (arr s) (m :: arr (fst (hstep cmp pzero vzero s HPop))) /\
+  hinv P V cmp pzero (fst (hstep cmp pzero vzero s HPop)).
+Proof. exact (pop_min P V cmp pzero vzero). Qed.
+
+(* PopAll empties the queue and returns all of its elements in priority order *)
+Theorem C12_pq_popall_sorted : strict_weak_order P cmp -> forall (s : hst P V), hinv P V cmp pzero s ->
+  exists ids, hstep cmp pzero vzero s HPopAll = (fst (hstep cmp pzero vzero s HPopAll), HOVals (map (val vzero s) ids)) /\
+    arr (fst (hstep cmp pzero vzero s HPopAll)) = [] /\
+    Permutation (arr s) ids /\
+    StronglySorted (fun a b => plt P cmp (prio pzero s b) (prio pzero s a) = false) ids.
+Proof. exact (popall_sorted P V cmp pzero vzero). Qed.
+
+(* PopUntil(p), for a comparator that also honours the three-way contract (a > b iff b < a): returns in priority
+   order exactly the elements whose key compares <= p; every element that stays compares > p *)
+Theorem C12_pq_popuntil_exact : strict_weak_order P cmp -> cmp_consistent P cmp -> forall (s : hst P V) p,
+  hinv P V cmp pzero s ->
+  let s' := fst (hstep cmp pzero vzero s (HPopUntil p)) in
+  exists ids, snd (hstep cmp pzero vzero s (HPopUntil p)) = HOVals (map (val vzero s) ids) /\
+    Permutation (arr s) (ids ++ arr s') /\
+    StronglySorted (fun a b => plt P cmp (prio pzero s b) (prio pzero s a) = false) ids /\
+    (forall x, In x ids -> (cmp (prio pzero s x) p <= 0)%Z) /\
+    (forall y, In y (arr s') -> (0 < cmp (prio pzero s y) p)%Z) /\
+    (forall x, In x (arr s) -> (In x ids <-> (cmp (prio pzero s x) p <= 0)%Z)) /\
+    hinv P V cmp pzero s'.
+Proof. exact (popuntil_exact P V cmp pzero vzero). Qed.
 
 Theorem C12_pq_popall_contents : forall (s : hst P V) lim, idx_ok P V s ->
   let r := pop_loop cmp pzero (S (length (arr s))) lim s [] in Permutation (arr s) (snd r ++ arr (fst r)).
@@ -127,6 +174,21 @@ Proof.
   split; [apply heap_reachable_idx_ok|]. vm_compute. auto.
 Qed.
 
+(* non-vacuity of the ordering theorems: the comparators in use satisfy both premises, and a reachable state with
+   ties, a removed middle element and three levels satisfies hinv; PopUntil splits it, PopAll sorts it *)
+Example C12a_nonvacuous_swo : forall mo, strict_weak_order Z (cmp_of mo) /\ cmp_consistent Z (cmp_of mo).
+Proof. intros mo. split; [apply cmp_of_strict_weak_order | apply cmp_of_consistent]. Qed.
+Definition C12a_order_hist : list (hev Z Z) :=
+  [HPush 5%Z 0%Z; HPush 3%Z 1%Z; HPush 4%Z 2%Z; HPush 1%Z 3%Z; HPush 3%Z 4%Z; HPush 0%Z 5%Z; HPush 2%Z 6%Z; HRemove 1; HPop].
+Example C12a_nonvacuous_hinv :
+  let s := fst (hrun (cmp_of CmpAsc) 0%Z 0%Z hnew C12a_order_hist) in
+  hinv Z Z (cmp_of CmpAsc) 0%Z s /\ arr s = [3; 6; 2; 0; 4] /\
+  snd (hstep (cmp_of CmpAsc) 0%Z 0%Z s (HPopUntil 3%Z)) = HOVals [3%Z; 6%Z; 4%Z] /\
+  snd (hstep (cmp_of CmpAsc) 0%Z 0%Z s HPopAll) = HOVals [3%Z; 6%Z; 4%Z; 2%Z; 0%Z].
+Proof.
+  intros s. split; [apply C12_pq_heap_invariant; apply cmp_of_strict_weak_order|]. vm_compute. auto.
+Qed.
+
 Print Assumptions C12_shrinkingmap_shrink_unobservable.
 Print Assumptions C12_randommap_invariant.
 Print Assumptions C12_randommap_random_key_member.
@@ -137,7 +199,13 @@ Print Assumptions C12_randommap_set_plain.
 Print Assumptions C12_randommap_delete_plain.
 Print Assumptions C12_pq_index_invariant.
 Print Assumptions C12_pq_push_contents.
-Print Assumptions C12_pq_pop_min_partial.
+Print Assumptions C12_pq_pop_root.
+Print Assumptions C12_pq_heap_invariant.
+Print Assumptions C12_pq_heap_invariant_step.
+Print Assumptions C12_pq_pop_min_full.
+Print Assumptions C12_pq_pop_min.
+Print Assumptions C12_pq_popall_sorted.
+Print Assumptions C12_pq_popuntil_exact.
 Print Assumptions C12_pq_popall_contents.
 Print Assumptions C12_pq_remove_exact.
 Print Assumptions C12_pq_remove_dead_noop.
